@@ -499,10 +499,10 @@ impl Checker {
 async fn run_phase(phase: usize, sqlite: &SqliteStore, acked: &Acked, model: &Rc<RefCell<Model>>, env: &Rc<Env>, scripts: Vec<Vec<OpS>>, file_db: bool, faults: bool, restart_at: Option<u64>, chk: &mut Checker) -> PhaseEnd {
     let n = scripts.len();
     let mut ex = StepExec::new();
-    ex.watchdog = Duration::from_secs(15);
+    ex.watchdog = Duration::from_secs(60);
     // Every park of this scenario is classified by the model (hint); what remains are waits for
     // sqlx workers, which under machine load can take long. The fallback is only a watchdog here.
-    ex.fallback = Duration::from_secs(15);
+    ex.fallback = Duration::from_secs(30);
     for (a, ops) in scripts.into_iter().enumerate() {
         let id = ex.add(&format!("act{a}"), Policy::ForeignDefault, activity(a, acked.clone(), model.clone(), env.clone(), ops));
         assert_eq!(id, a);
